@@ -33,6 +33,8 @@ pub enum Op {
     EmitNonUtf8(usize),
     /// Write everything queued to stdout (blocking, in chunks).
     Flush,
+    /// Write this many bytes of diagnostics to stderr (blocking, in chunks, if stderr is a pipe).
+    Stderr(usize),
     CloseStdin,
     CloseStdout,
     /// Exit with this code.
@@ -124,6 +126,8 @@ pub struct ProcStats {
     pub parent_blocked_in_wait: u64,
     pub child_blocked_on_full_stdout: u64,
     pub child_blocked_on_empty_stdin: u64,
+    pub child_blocked_on_full_stderr: u64,
+    pub bytes_to_stderr: u64,
     pub child_exit_before_first_write: u64,
     pub child_exit_nonzero: u64,
     pub child_killed: u64,
@@ -154,6 +158,8 @@ impl ProcStats {
         self.parent_blocked_in_wait += o.parent_blocked_in_wait;
         self.child_blocked_on_full_stdout += o.child_blocked_on_full_stdout;
         self.child_blocked_on_empty_stdin += o.child_blocked_on_empty_stdin;
+        self.child_blocked_on_full_stderr += o.child_blocked_on_full_stderr;
+        self.bytes_to_stderr += o.bytes_to_stderr;
         self.child_exit_before_first_write += o.child_exit_before_first_write;
         self.child_exit_nonzero += o.child_exit_nonzero;
         self.child_killed += o.child_killed;
@@ -181,6 +187,8 @@ impl ProcStats {
             "parent_blocked_in_wait": self.parent_blocked_in_wait,
             "child_blocked_on_full_stdout": self.child_blocked_on_full_stdout,
             "child_blocked_on_empty_stdin": self.child_blocked_on_empty_stdin,
+            "child_blocked_on_full_stderr": self.child_blocked_on_full_stderr,
+            "bytes_to_stderr": self.bytes_to_stderr,
             "child_exit_before_first_write": self.child_exit_before_first_write,
             "child_exit_nonzero": self.child_exit_nonzero, "child_killed": self.child_killed,
             "child_sigpipe": self.child_sigpipe, "child_exit_zero_empty": self.child_exit_zero_empty,
@@ -229,6 +237,8 @@ struct SimProc {
     parent_calls: u64,
     stdin: Pipe,
     stdout: Pipe,
+    stderr: Pipe,
+    err_progress: usize,
     received: Vec<u8>,
     read_progress: usize,
     outbuf: VecDeque<u8>,
@@ -265,6 +275,7 @@ impl SimProc {
         self.stdin.rd_open = false;
         self.stdin.buf.clear();
         self.stdout.wr_open = false;
+        self.stderr.wr_open = false;
         if !self.first_parent_write_seen {
             self.stats.child_exit_before_first_write += 1;
         }
@@ -442,6 +453,40 @@ impl SimProc {
                     }
                 }
             }
+            Op::Stderr(total) => {
+                let remaining = total - self.err_progress;
+                if remaining == 0 || self.stderr.sink {
+                    self.now = t;
+                    self.stats.bytes_to_stderr += remaining as u64;
+                    self.err_progress = 0;
+                    self.pc += 1;
+                    true
+                } else if !self.stderr.rd_open {
+                    self.now = t;
+                    self.stats.child_sigpipe += 1;
+                    self.exit_with(libc::SIGPIPE);
+                    true
+                } else {
+                    let n = self.stderr.space().min(self.plan.chunk.max(1)).min(remaining);
+                    if n == 0 {
+                        self.stats.child_blocked_on_full_stderr += 1;
+                        false
+                    } else {
+                        self.now = t;
+                        self.stderr
+                            .buf
+                            .extend(b"error: simulated diagnostic\n".iter().cycle().take(n));
+                        self.err_progress += n;
+                        self.stats.bytes_to_stderr += n as u64;
+                        self.ev('C', "write_stderr", n as i64, 0);
+                        if self.err_progress == total {
+                            self.err_progress = 0;
+                            self.pc += 1;
+                        }
+                        true
+                    }
+                }
+            }
             Op::CloseStdin => {
                 self.now = t;
                 self.pc += 1;
@@ -545,7 +590,18 @@ impl SimChild {
         what: &'static str,
     ) -> std::sync::MutexGuard<'a, SimProc> {
         let generation = p.generation;
-        let deadline = std::time::Instant::now() + OTHER_THREAD_GRACE;
+        // Another parent thread can only exist if this one created it or is itself a helper:
+        // a run executes on a fresh thread, so "created no thread and is the only thread that
+        // ever touched the child" means nobody else can come to the rescue.
+        let alone = crate::seams::threads_created_by_current_thread() == 0
+            && p.parent_threads.len() <= 1
+            && p.parent_threads.first() == Some(&std::thread::current().id());
+        let deadline = std::time::Instant::now()
+            + if alone {
+                std::time::Duration::ZERO
+            } else {
+                OTHER_THREAD_GRACE
+            };
         loop {
             let now = std::time::Instant::now();
             if now >= deadline {
@@ -698,8 +754,15 @@ impl ChildIo for SimChild {
                 }
             },
             Fd::Stderr => loop {
-                // The simulated child never writes to stderr: EOF arrives when it exits.
-                if p.status.is_some() {
+                if !p.stderr.buf.is_empty() {
+                    let n = buf.len().min(p.stderr.buf.len());
+                    for (dst, src) in buf.iter_mut().zip(p.stderr.buf.drain(..n)) {
+                        *dst = src;
+                    }
+                    p.ev('P', "got_stderr", n as i64, 0);
+                    return Ok(n);
+                }
+                if !p.stderr.wr_open {
                     return Ok(0);
                 }
                 if !p.advance_child() {
@@ -729,7 +792,45 @@ impl ChildIo for SimChild {
                     p.ev('P', "close_stdout", 0, 0);
                 }
             }
-            Fd::Stderr => {}
+            Fd::Stderr => {
+                if p.stderr.rd_open {
+                    p.stderr.rd_open = false;
+                    p.stderr.buf.clear();
+                    p.ev('P', "close_stderr", 0, 0);
+                }
+            }
+        }
+    }
+
+    fn read2(&self, stdout: &mut Vec<u8>, stderr: &mut Vec<u8>) -> io::Result<()> {
+        self.hook("seam:read2");
+        let mut p = self.lock();
+        p.parent_tick("read2", 0);
+        self.changed.notify_all();
+        loop {
+            let a = p.stdout.buf.len();
+            let b = p.stderr.buf.len();
+            if a > 0 {
+                stdout.extend(p.stdout.buf.drain(..));
+            }
+            if b > 0 {
+                stderr.extend(p.stderr.buf.drain(..));
+            }
+            if a + b > 0 {
+                p.ev('P', "got2", a as i64, b as i64);
+            }
+            if !p.stdout.wr_open && !p.stderr.wr_open {
+                p.ev('P', "got2_eof", 0, 0);
+                return Ok(());
+            }
+            if a + b == 0 {
+                p.stats.parent_blocked_on_empty_stdout += 1;
+                if !p.advance_child() {
+                    p = self.stuck(p, "hang:parent_read2_child_blocked");
+                }
+            } else {
+                p.run_due();
+            }
         }
     }
 
@@ -845,6 +946,8 @@ pub fn spawn(
             pipe
         },
         stdout: Pipe::new(plan.stdout_cap, spec.stdout),
+        stderr: Pipe::new(plan.stdout_cap, spec.stderr),
+        err_progress: 0,
         received: Vec::new(),
         read_progress: 0,
         outbuf: VecDeque::new(),
